@@ -7,7 +7,7 @@
      atomic pipeline (a column of its From / Joins, or a Compute materialized in it) or in `missing` -- the Select that is
      appended to the remaining pipeline, i.e. projected by the previous SELECT. *)
 From Coq Require Import List Bool Arith Lia.
-From PV Require Import Model.SplitBase Model.SplitOff.
+From PV Require Import Model.SplitBase Model.SplitOff Proofs.SplitProofs.
 Import ListNotations.
 
 Section P.
@@ -49,6 +49,11 @@ Section P.
   Qed.
 
   (* a step that goes on: requirements grow, `curr` gets the transform unless it is a Select, availability grows *)
+  Lemma step_go_split s t s' : step s t = (s', None) -> split (kind_of t) (s_following s) = false.
+  Proof.
+    unfold SplitOff.step. destruct (split (kind_of t) (s_following s)); [intro H; discriminate H | reflexivity].
+  Qed.
+
   Lemma step_go s t s' : step s t = (s', None) ->
     s_following s' = following_after s t /\
     (exists more, s_required s' = s_required s ++ get_requirements t (following_after s t) (s_required s) ++ more) /\
@@ -118,6 +123,28 @@ Section P.
     - destruct (IH pre t post eq_refl) as (si & Hci & Hi). exists si. split; [econstructor; eassumption | exact Hi].
   Qed.
 
+  (* ---- clause order of what is consumed, under the table-level fact of SplitProofs ---- *)
+  Hypothesis records_spec : forall k, records k = match k with KComputeAgg => false | _ => true end.
+  Hypothesis table_ok : forall k f y, split k f = false -> In y f -> may_precede k y = true.
+
+  Lemma consumed_ordered s done s' : consumed s done s' -> forall acc,
+    clause_ordered acc = true -> SplitProofs.covers (s_following s) acc ->
+    clause_ordered (rev (map kind_of done) ++ acc) = true.
+  Proof.
+    induction 1 as [s|s t s1 r s2 Hs Hc IH]; intros acc Hacc Hcov; [exact Hacc|].
+    cbn [map rev]. rewrite <- app_assoc. cbn [app].
+    pose proof (step_go_split _ _ _ Hs) as Esp.
+    destruct (step_go _ _ _ Hs) as (Hf & _). apply IH.
+    - rewrite SplitProofs.clause_ordered_cons. apply andb_true_iff; split; [|exact Hacc].
+      apply forallb_forall. intros y Hy. destruct (Hcov y Hy) as [->|Hin].
+      + apply orb_true_r.
+      + rewrite (table_ok _ _ (as_name y) Esp Hin). reflexivity.
+    - rewrite Hf. unfold following_after. intros y [<-|Hy].
+      + rewrite records_spec. destruct (kind_of t); try (right; left; reflexivity). left; reflexivity.
+      + destruct (Hcov y Hy) as [->|Hin]; [left; reflexivity|]. right.
+        destruct (records (kind_of t)); [right; exact Hin | exact Hin].
+  Qed.
+
   (* ---- the result record ---- *)
   Notation split_off_back := (SplitOff.split_off_back split records).
 
@@ -163,6 +190,36 @@ Section P.
       rewrite rev_app_distr. cbn [rev app]. rewrite Hcur. f_equal.
       clear. induction done as [|t r IH]; [reflexivity|]. cbn [filter rev]. rewrite filter_app, <- IH. cbn [filter].
       destruct (notsel t); [cbn [rev]; reflexivity | rewrite app_nil_r; reflexivity].
+  Qed.
+
+  (* the kinds of the consumed suffix are clause-ordered, whatever made the walk stop *)
+  Theorem split_off_back_clause_ordered pipeline output :
+    let r := split_off_back pipeline output in
+    exists remaining suffix, pipeline = remaining ++ suffix /\
+      res_atomic r = TSelect (res_select r) :: filter notsel suffix /\ clause_ordered (map kind_of suffix) = true.
+  Proof.
+    unfold SplitOff.split_off_back. set (s0 := mkState _ _ _ _).
+    destruct (walk s0 (rev pipeline)) as [[s rem] why] eqn:Ew. cbn [res_atomic res_select].
+    destruct (walk_spec _ _ _ _ _ Ew) as (done & s1 & Erp & Hc & Hw).
+    pose proof (split_off_back_partition pipeline output) as HP. unfold SplitOff.split_off_back in HP. fold s0 in HP. rewrite Ew in HP.
+    cbn [res_atomic res_select res_remaining_len] in HP.
+    exists rem, (rev done). split; [rewrite <- (rev_involutive pipeline), Erp, rev_app_distr, rev_involutive; reflexivity|].
+    split.
+    - destruct HP as (rem2 & suf2 & Ep & Ha & _).
+      assert (Hcur : s_curr_rev s = filter notsel done).
+      { destruct (consumed_mono _ _ _ Hc) as (_ & _ & I3). cbn [s_curr_rev] in I3.
+        destruct why as [w|].
+        - destruct Hw as (t & rem' & _ & Hst). unfold SplitOff.step in Hst.
+          destruct (split (kind_of t) (s_following s1)); [injection Hst as <- _; exact I3|].
+          destruct t as [cols|cols fe|c|partition cids decls|e|sup cids|range partition sort|cids| |cids| | | | ]; try discriminate Hst.
+          + destruct (can_materialize c _) as [ok mx]; destruct ok; [discriminate Hst|]. injection Hst as <- _. exact I3.
+          + destruct (forallb _ decls); [discriminate Hst|]. injection Hst as <- _. exact I3.
+        - destruct Hw as [_ ->]. exact I3. }
+      rewrite rev_app_distr. cbn [rev app]. rewrite Hcur. f_equal.
+      clear. induction done as [|t r IH]; [reflexivity|]. cbn [filter rev]. rewrite filter_app, <- IH. cbn [filter].
+      destruct (notsel t); [cbn [rev]; reflexivity | rewrite app_nil_r; reflexivity].
+    - pose proof (consumed_ordered _ _ _ Hc [] eq_refl) as Ho. rewrite app_nil_r in Ho. rewrite map_rev. apply Ho.
+      intros y [].
   Qed.
 
   (* the walk stops only when forced *)
